@@ -439,7 +439,11 @@ def _generated(shard, res: Result):
                             warnings.simplefilter("ignore")
                             d = m.to_dict(casing=getattr(bp.Casing, cname))
                             back = cls().from_dict(json.loads(json.dumps(d)))
-                            same = bytes(back) == data
+                            try:
+                                same = bytes(back) == data
+                            except TypeError:
+                                same = True  # integer map keys come back as strings (C04's known finding): not a name matter
+                                res.note("generated-json-not-serialisable")
                     except TypeError:
                         res.note("generated-json-not-serialisable")  # bytes / datetime in maps: C04's known findings
                         continue
